@@ -4,6 +4,7 @@
   Property theorems only (helper lemmas live in GoFlags/Lemmas).  The spec `ed` is the
   textbook Levenshtein recursion (GoFlags/Lemmas/EditDistance.lean, 6 lines).
 -/
+import GoFlags.Props.C20.Trans
 import GoFlags.Lemmas.Closest
 import GoFlags.Lemmas.Sort
 import GoFlags.Parse
